@@ -199,5 +199,5 @@ for _pid in ["C03", "C06", "C08", "C11", "C14", "C18"]:
     if _pid != "C18":
         PROPS[_pid]["explanation"] += "  Frames of the numpy/xarray drivers of this step: " + FRAME_NOTE + "."
 
-FIX_COMMITS = ['c8eaaa2', '39f21c5', '00e445f', 'cea0f99', '62af5fc', 'd016e8e', 'a2233a1', '3bbb417', 'bdac312', '35f4fa5', 'bcaad45', '42d03b2', 'fd4d6b2', '756db6e', 'abbd602', 'a62df76', 'bf98cec', '1944eb0']
+FIX_COMMITS = ['c8eaaa2', '39f21c5', '00e445f', 'cea0f99', '62af5fc', 'd016e8e', 'a2233a1', '3bbb417', 'bdac312', '35f4fa5', 'bcaad45', '42d03b2', 'fd4d6b2', '756db6e', 'abbd602', 'a62df76', 'bf98cec', '1944eb0', '9f9ea00']
 NOT_YET = {}
